@@ -384,6 +384,27 @@ def run(ctx):
     from . import c15
     reuse(ctx, c15.evidence_dtype_rule, ("C15.evid",), "C02smc", "precision rule shared with C15: per-step ratios narrowed to Python floats come back in the namespace's default width "
           "(float32 under torch), so the returned log-evidence and its error are not accurate to the requested float64")
+    # ---- the weight functionals are computed with the set's own array namespace: math.exp / math.log on a field of the set turn an overflow into an exception
+    #      (math.exp(x) raises OverflowError above 709.78 where xp.exp gives inf) and narrow the value to a Python float of the platform's width
+    import ast as _ast
+    from ..model import walk_no_nested as _wnn
+    bad_math = []
+    n_math = 0
+    for f_ in repo.all_functions():
+        if not f_.ident.startswith("aspire.samples:") or not f_.params:
+            continue
+        me_ = f_.params[0]
+        for n_ in _wnn(f_.node):
+            if isinstance(n_, _ast.Call) and isinstance(n_.func, _ast.Attribute) and isinstance(n_.func.value, _ast.Name) and n_.func.value.id == "math" and n_.func.attr in ("exp", "expm1", "pow"):
+                n_math += 1
+                if any(isinstance(x_, _ast.Attribute) and isinstance(x_.value, _ast.Name) and x_.value.id == me_ for a_ in n_.args for x_ in _ast.walk(a_)):
+                    bad_math.append((f_, n_))
+    ctx.count("python_math_exponentials_in_the_sample_classes", n_math)
+    ctx.decide(not bad_math, "C02.ovf", "aspire.samples", loc_of(bad_math[0][0], bad_math[0][1]) if bad_math else "src/aspire/samples.py",
+               "no Python-math exponential is applied to a field of a sample set",
+               (f"{bad_math[0][0].ident} applies `{_ast.unparse(bad_math[0][1])[:50]}` to a stored field: Python's math.exp raises OverflowError above 709.78 where the array exp returns inf, "
+                "so building a weighted set whose log-evidence exceeds that -- a constant added to the log-likelihood is enough -- raises instead of giving log-evidence, relative error and ESS") if bad_math else "",
+               disc="python-math")
     # ---- derived weight quantities are functions of the current log-weights: nothing computed from log_w is cached across a recomputation
     from . import cachecoh
     cachecoh.rule(ctx, "C02.stale", ("aspire.samples",), "a weight-derived value (scaled weights, efficiency, ESS) read after compute_weights() still belongs to the previous log-weights")
@@ -531,6 +552,9 @@ MUTANTS += [
 MUTANTS += [
     M("scaled weights cached on first use", "src/aspire/samples.py", "@property\n    def scaled_weights(self):", "@cached_property\n    def scaled_weights(self):", "C02.stale",
       more=[("import math\n", "import math\nfrom functools import cached_property\n")]),
+]
+MUTANTS += [
+    M("linear evidence computed with math.exp", "src/aspire/samples.py", "self.evidence = self.xp.exp(self.log_evidence)", "self.evidence = math.exp(self.log_evidence)", "C02.ovf"),
 ]
 NEUTRALS = [
     M("weight initialisation moved into a helper", _S, "super().__post_init__()\n\n        if all(", "super().__post_init__()\n        self._init_weights()\n\n    def _init_weights(self):\n        if all(", within="Samples"),
